@@ -132,5 +132,22 @@ func init() {
 		fr.i.path.env.failWriteSuffix = concStr(args[1], "FailWrites")
 		return nil
 	})
+	H("Remote", func(fr *frame, args []value) value {
+		e := fr.i.path.env
+		e.remotePages = []string{}
+		for _, pg := range args[1].([]value) {
+			e.remotePages = append(e.remotePages, concStr(pg, "Remote page"))
+		}
+		e.remoteServed = 0
+		e.remoteRequests = nil
+		return "http://remote.invalid/datasets/r/changes"
+	})
+	H("RemoteRequests", func(fr *frame, args []value) value {
+		out := []value{}
+		for _, r := range fr.i.path.env.remoteRequests {
+			out = append(out, r)
+		}
+		return out
+	})
 	H("Acked", func(fr *frame, args []value) value { return fr.i.path.env.acked })
 }
